@@ -2,7 +2,7 @@
 import numpy as np
 
 
-def krylov_residuals(A, v, maxdim):
+def krylov_residuals(A, v, maxdim, basis=False):
     """
     Fully re-orthogonalised (twice-MGS) Arnoldi: returns list r with r[j] = norm of the (j+1)-th new direction relative
     to ||A||_2, j = 0.. ; r[j] ~ 0 means the Krylov space has dimension j+1. Stops at the first r[j] < 1e-13.
@@ -22,7 +22,20 @@ def krylov_residuals(A, v, maxdim):
         if r < 1e-13:
             break
         q = w / np.linalg.norm(w)
-    return res
+    return (res, Q) if basis else res
+
+
+def basis_condition(A, v, Q, kk):
+    """
+    cond([v/|v|, A Q_{kk-1} / ||A||]) with Q the independent re-orthogonalised basis: the quantity that bounds the loss of
+    orthogonality of modified-Gram-Schmidt Arnoldi (Paige, Rozloznik, Strakos 2006: loss <= c * eps * cond).
+    """
+    if kk <= 1:
+        return 1.0
+    nA = max(np.linalg.norm(A, 2), 1e-300)
+    K = np.column_stack([v / np.linalg.norm(v), (A @ Q[:, :kk - 1]) / nA])
+    sv = np.linalg.svd(K, compute_uv=False)
+    return float(sv[0] / max(sv[-1], 1e-300))
 
 
 def krylov_dim(res, thresh=1e-8):
